@@ -14,7 +14,8 @@ fn spec() -> Spec {
         "C22",
         "exploration",
         "for a roster of SBOR-derived engine types T (substates, events, transaction models, receipt parts) and payloads p (generated from T's own schema, harvested from a bootstrapped ledger, and mutants of both): \
-         typed decode accepts p => p validates against T's generated schema; for the decoded value v: encode(v) validates against the schema and decodes back to an equal value",
+         typed decode accepts p => p validates against T's generated schema; for the decoded value v: encode(v) validates against the schema and decodes back to an equal value; \
+         plus a synthetic roster of harness-defined types exercising the derive macros (generic / transparent / as_type / skip / flatten / discriminator / bounds / recursion; several instantiations of one generic inside one schema) whose values are constructed directly",
     )
     .assume("schema = generate_full_schema_from_single_type::<T, ScryptoCustomSchema>(); validation with the static () context, depth limit 64")
     .assume("values are obtained by typed decoding of generated / harvested / mutated payloads (every accepted payload yields a value of T)")
@@ -24,6 +25,9 @@ fn spec() -> Spec {
     .floor("harvested_payloads", 300)
     .floor("harvest_typed_accepts", 200)
     .floor("roundtrips_checked", 50_000)
+    .floor("synthetic_types_exercised", 45)
+    .floor("synthetic_types_with_values", 45)
+    .floor("constructed_values", 20_000)
     .explain("equality is PartialEq where the type has it, else byte equality of the re-encoding")
 }
 
@@ -46,6 +50,11 @@ pub trait Entry: Sync + Send {
     fn schema(&self) -> (&Sch, LocalTypeId);
     /// Runs the oracle on one payload. Returns true if the typed decoder accepted.
     fn check(&self, p: &[u8], origin: &str, sh: &mut Shard) -> bool;
+    /// Encoding of a value built directly with the type's constructors (not via its schema).
+    fn constructed(&self, rng: &mut Rng) -> Option<Vec<u8>>;
+    fn is_synthetic(&self) -> bool {
+        self.name().starts_with("synth::")
+    }
 }
 
 pub struct E<T, const MANIFEST: bool, const EQ: bool> {
@@ -53,6 +62,8 @@ pub struct E<T, const MANIFEST: bool, const EQ: bool> {
     schema: VersionedSchema<S>,
     tid: LocalTypeId,
     eq: fn(&T, &T) -> Option<bool>,
+    /// directly constructed value, encoded (synthetic roster only)
+    gen: Option<fn(&mut Rng) -> Option<Vec<u8>>>,
     ph: std::marker::PhantomData<fn() -> T>,
 }
 
@@ -122,14 +133,23 @@ fn check_generic<T: Debug, C: Codec<T>>(
         }
     };
     sh.count("typed_accepts");
+    if name.starts_with("synth::") || name.contains("synth::") {
+        sh.count(&format!("synthetic_values:{name}"));
+    }
     if origin.starts_with("harvest") {
         sh.count("harvest_typed_accepts");
         sh.seen("harvest_types_matched", name);
     }
     let detail = |what: &str, extra: serde_json::Value| json!({"type": name, "flavour": fl.name(), "payload": hex(p), "origin": origin, "what": what, "extra": extra});
     if let Err(e) = &sv {
+        let clause = if origin == "constructed-value" {
+            // p is the encoding of a directly constructed value of T
+            "encoding-of-constructed-value-rejected-by-own-schema"
+        } else {
+            "typed-decoder-accepts-payload-its-schema-rejects"
+        };
         sh.violation(
-            format!("typed-decoder-accepts-payload-its-schema-rejects:{}", val_class(e)),
+            format!("{clause}:{}", val_class(e)),
             detail("typed decode Ok, validate_payload_against_schema Err", json!({"validation_error": e})),
         );
     }
@@ -196,6 +216,9 @@ impl<T: Debug + ScryptoEncode + ScryptoDecode, const EQ: bool> Entry for E<T, fa
     fn check(&self, p: &[u8], origin: &str, sh: &mut Shard) -> bool {
         check_generic::<T, Sc>(self.name, Flavour::Scrypto, self.schema.v1(), self.tid, self.eq, p, origin, sh)
     }
+    fn constructed(&self, rng: &mut Rng) -> Option<Vec<u8>> {
+        self.gen.and_then(|g| g(rng))
+    }
 }
 impl<T: Debug + ManifestEncode + ManifestDecode, const EQ: bool> Entry for E<T, true, EQ> {
     fn name(&self) -> &'static str {
@@ -210,6 +233,9 @@ impl<T: Debug + ManifestEncode + ManifestDecode, const EQ: bool> Entry for E<T, 
     fn check(&self, p: &[u8], origin: &str, sh: &mut Shard) -> bool {
         check_generic::<T, Mf>(self.name, Flavour::Manifest, self.schema.v1(), self.tid, self.eq, p, origin, sh)
     }
+    fn constructed(&self, rng: &mut Rng) -> Option<Vec<u8>> {
+        self.gen.and_then(|g| g(rng))
+    }
 }
 
 fn eq_yes<T: PartialEq>(a: &T, b: &T) -> Option<bool> {
@@ -222,20 +248,105 @@ fn eq_bytes<T>(_: &T, _: &T) -> Option<bool> {
 macro_rules! sc {
     ($v:ident, $($t:ty),* $(,)?) => {$({
         let (tid, schema) = generate_full_schema_from_single_type::<$t, S>();
-        $v.push(Box::new(E::<$t, false, true> { name: stringify!($t), schema, tid, eq: eq_yes::<$t>, ph: std::marker::PhantomData }) as Box<dyn Entry>);
+        $v.push(Box::new(E::<$t, false, true> { name: stringify!($t), schema, tid, eq: eq_yes::<$t>, gen: None, ph: std::marker::PhantomData }) as Box<dyn Entry>);
     })*};
 }
 macro_rules! sc_noeq {
     ($v:ident, $($t:ty),* $(,)?) => {$({
         let (tid, schema) = generate_full_schema_from_single_type::<$t, S>();
-        $v.push(Box::new(E::<$t, false, false> { name: stringify!($t), schema, tid, eq: eq_bytes::<$t>, ph: std::marker::PhantomData }) as Box<dyn Entry>);
+        $v.push(Box::new(E::<$t, false, false> { name: stringify!($t), schema, tid, eq: eq_bytes::<$t>, gen: None, ph: std::marker::PhantomData }) as Box<dyn Entry>);
     })*};
 }
 macro_rules! mf {
     ($v:ident, $($t:ty),* $(,)?) => {$({
         let (tid, schema) = generate_full_schema_from_single_type::<$t, S>();
-        $v.push(Box::new(E::<$t, true, true> { name: stringify!($t), schema, tid, eq: eq_yes::<$t>, ph: std::marker::PhantomData }) as Box<dyn Entry>);
+        $v.push(Box::new(E::<$t, true, true> { name: stringify!($t), schema, tid, eq: eq_yes::<$t>, gen: None, ph: std::marker::PhantomData }) as Box<dyn Entry>);
     })*};
+}
+
+fn fuel(rng: &mut Rng) -> i32 {
+    4 + rng.below(40) as i32
+}
+macro_rules! syn_sc {
+    ($v:ident, $($t:ty),* $(,)?) => {$({
+        let (tid, schema) = generate_full_schema_from_single_type::<$t, S>();
+        fn g(rng: &mut Rng) -> Option<Vec<u8>> {
+            let mut f = fuel(rng);
+            let v = <$t as crate::typed::G>::g(rng, &mut f);
+            scrypto_encode(&v).ok()
+        }
+        $v.push(Box::new(E::<$t, false, true> { name: stringify!($t), schema, tid, eq: eq_yes::<$t>, gen: Some(g), ph: std::marker::PhantomData }) as Box<dyn Entry>);
+    })*};
+}
+macro_rules! syn_mf {
+    ($v:ident, $($t:ty),* $(,)?) => {$({
+        let (tid, schema) = generate_full_schema_from_single_type::<$t, S>();
+        fn g(rng: &mut Rng) -> Option<Vec<u8>> {
+            let mut f = fuel(rng);
+            let v = <$t as crate::typed::G>::g(rng, &mut f);
+            manifest_encode(&v).ok()
+        }
+        $v.push(Box::new(E::<$t, true, true> { name: stringify!($t), schema, tid, eq: eq_yes::<$t>, gen: Some(g), ph: std::marker::PhantomData }) as Box<dyn Entry>);
+    })*};
+}
+
+/// Harness-defined types exercising the derive macros (see synth.rs).
+pub fn synthetic_roster() -> Vec<Box<dyn Entry>> {
+    use crate::synth;
+    let mut v: Vec<Box<dyn Entry>> = vec![];
+    syn_sc!(
+        v,
+        synth::HoldTransparent,
+        synth::HoldTransparentRev,
+        synth::HoldGeneric,
+        synth::HoldAs,
+        synth::HoldAttrs,
+        synth::HoldBounds,
+        synth::HoldRec,
+        synth::HoldWellKnown,
+        // parts on their own, and further instantiations at the root
+        synth::TW<String>,
+        synth::TW<u32>,
+        synth::TN<Vec<u8>>,
+        synth::TT<String>,
+        synth::TR<u8>,
+        synth::TSkip<String>,
+        synth::Nest<synth::TW<synth::TN<u32>>>,
+        synth::Nest3<synth::Nest<synth::TT<String>>>,
+        synth::Meters,
+        synth::Label,
+        synth::GS<u8>,
+        synth::GS<synth::GS<String>>,
+        synth::GE<u8, String>,
+        synth::GE<synth::TW<u8>, synth::TW<String>>,
+        synth::GTuple<u8, String>,
+        synth::AsU32,
+        synth::AsU32Transparent,
+        synth::AsString,
+        synth::VG<u8>,
+        synth::VG<String>,
+        synth::Sk,
+        synth::SkTuple,
+        synth::SkGen<String>,
+        synth::Flat,
+        synth::Disc,
+        synth::ReprDisc,
+        synth::GDisc<String>,
+        synth::Cat<u8, String>,
+        synth::Child<String>,
+        synth::Tree,
+        synth::Linked,
+        synth::RT<u8>,
+        synth::RT<String>,
+        (synth::TW<u8>, synth::TW<String>, synth::TW<bool>),
+        Vec<(synth::GS<u8>, synth::GS<String>)>,
+        std::collections::BTreeMap<synth::TW<u16>, synth::GE<synth::TW<u8>, synth::TN<String>>>,
+        [synth::TR<String>; 2],
+        Option<Box<synth::Nest<synth::TW<String>>>>,
+        Result<synth::TW<u8>, synth::TW<String>>,
+    );
+    syn_mf!(v, synth::HoldManifest, synth::TW<radix_common::prelude::ManifestBucket>, synth::GS<radix_common::prelude::ManifestDecimal>, synth::GE<radix_common::prelude::ManifestAddressReservation, String>);
+    v
 }
 
 pub fn roster() -> Vec<Box<dyn Entry>> {
@@ -520,6 +631,7 @@ pub fn roster() -> Vec<Box<dyn Entry>> {
         om::role_assignment::LockOwnerRoleEvent,
         radix_engine::system::system_modules::costing::FeeReserveFinalizationSummary,
     );
+    v.extend(synthetic_roster());
     v
 }
 
@@ -604,6 +716,22 @@ pub fn harvest() -> Harvest {
 // ---------------------------------------------------------------------------------------------
 fn step(e: &dyn Entry, rng: &mut Rng, sh: &mut Shard, pool: &[Vec<u8>]) {
     let fl = e.flavour();
+    // (0) synthetic roster: values built directly, independent of the schema under test
+    for _ in 0..2 {
+        if let Some(p) = e.constructed(rng) {
+            sh.count("constructed_values");
+            if !e.check(&p, "constructed-value", sh) {
+                sh.violation(
+                    format!("encoding-of-constructed-value-does-not-decode:{}", e.name()),
+                    json!({"type": e.name(), "flavour": fl.name(), "payload": hex(&p), "origin": "constructed-value"}),
+                );
+            }
+            // mutants of a constructed value's encoding
+            let mut q = p.clone();
+            let m = wire::mutate(rng, fl, &mut q, None, None);
+            e.check(&q, &format!("constructed-mutated:{m}"), sh);
+        }
+    }
     let (schema, tid) = e.schema();
     // (1) payload from the type's own schema
     let mut base: Option<(wire::RV, Vec<u8>, wire::Marks)> = None;
@@ -655,6 +783,8 @@ pub fn run(args: &Args) -> Report {
     let secs = rv_common::budget_secs(args.tier, 25, 420);
     let cap = rv_common::scaled(args, args.tier.pick(24_000_000u64, 800_000_000u64)) / 6 / args.threads as u64 + 1;
     let nthreads = args.threads;
+    let first_synth = roster.len() - synthetic_roster().len();
+    report.extra.insert("synthetic_roster_size".into(), json!(roster.len() - first_synth));
     report.run_shards(22, args.threads, Duration::from_secs(secs), |idx, rng, sh| {
         // harvested payloads x roster, partitioned over shards
         for (i, e) in roster.iter().enumerate() {
@@ -676,9 +806,12 @@ pub fn run(args: &Args) -> Report {
         let mut n = 0u64;
         while n < cap && !sh.time_up() {
             n += 1;
-            let i = rng.usize_below(roster.len());
+            let i = if rng.chance(1, 3) { first_synth + rng.usize_below(roster.len() - first_synth) } else { rng.usize_below(roster.len()) };
             let e = &roster[i];
             sh.seen("types_exercised_set", e.name());
+            if e.is_synthetic() || e.name().contains("synth::") {
+                sh.seen("synthetic_types_exercised_set", e.name());
+            }
             step(e.as_ref(), rng, sh, &harvested.scrypto);
             if n % 8 == 0 && !harvested.scrypto.is_empty() && e.flavour() == Flavour::Scrypto {
                 let mut q = harvested.scrypto[rng.usize_below(harvested.scrypto.len())].clone();
@@ -697,6 +830,10 @@ pub fn run(args: &Args) -> Report {
     });
     let exercised = report.sets.get("types_exercised_set").map(|s| s.len()).unwrap_or(0) as u64;
     report.counters.insert("types_exercised".into(), exercised);
+    let syn = report.sets.get("synthetic_types_exercised_set").map(|s| s.len()).unwrap_or(0) as u64;
+    report.counters.insert("synthetic_types_exercised".into(), syn);
+    let syn_with_values = report.counters.keys().filter(|k| k.starts_with("synthetic_values:")).count() as u64;
+    report.counters.insert("synthetic_types_with_values".into(), syn_with_values);
     report
 }
 
